@@ -54,3 +54,29 @@ Definition adam_m_next (beta1 m accept target : f64) : f64 :=
 
 Definition adam_print (s : adam_state) : list Z :=
   [to_bits (ad_log_step s); to_bits (ad_m s); to_bits (ad_v s); Z.of_N (ad_t s)].
+
+(* evaluation entry points: all arguments are bit patterns; rows = (mk or (b1t,b2t), accept) *)
+Fixpoint da_trace (o : da_opts) (s : da_state) (rows : list (Z * Z)) (target : f64) : list (list Z) :=
+  match rows with
+  | [] => []
+  | (mk, a) :: rest =>
+      let s' := da_advance o (of_bits mk) s (of_bits a) target in
+      da_print s' :: da_trace o s' rest target
+  end.
+Definition run_da (k t0 gamma lnmax lninit ln10 target : Z) (rows : list (Z * Z)) : list (list Z) :=
+  let o := {| da_k := of_bits k; da_t0 := of_bits t0; da_gamma := of_bits gamma; da_ln_max := of_bits lnmax |} in
+  let s0 := da_new (of_bits lninit) (of_bits ln10) in
+  da_print s0 :: da_trace o s0 rows (of_bits target).
+
+Fixpoint adam_trace (o : adam_opts) (s : adam_state) (rows : list (Z * Z * Z)) (target : f64)
+  : list (list Z) :=
+  match rows with
+  | [] => []
+  | (b1, b2, a) :: rest =>
+      let s' := adam_advance o (of_bits b1) (of_bits b2) s (of_bits a) target in
+      adam_print s' :: adam_trace o s' rest target
+  end.
+Definition run_adam (b1 b2 eps lr lninit target : Z) (rows : list (Z * Z * Z)) : list (list Z) :=
+  let o := {| ad_beta1 := of_bits b1; ad_beta2 := of_bits b2; ad_eps := of_bits eps; ad_lr := of_bits lr |} in
+  let s0 := {| ad_log_step := of_bits lninit; ad_m := fzero; ad_v := fzero; ad_t := 0 |} in
+  adam_print s0 :: adam_trace o s0 rows (of_bits target).
